@@ -333,7 +333,7 @@ fn main() {
     let worlds: Vec<FakeWorld> = (1..=3).map(|n| FakeWorld::build(n, seed, corpus_size)).collect();
     let pseed = mix(seed, qpz_core::rng::hash_str(&property));
     let (max_runs, budget) = match tier {
-        Tier::Quick => (runs_override.unwrap_or(1500), 0),
+        Tier::Quick => (runs_override.unwrap_or(6000), 0),
         Tier::Thorough => (runs_override.unwrap_or(u64::MAX / 2), qpz_core::budget_s(600)),
     };
     let keep_logs = mode == "dump-logs";
